@@ -601,10 +601,20 @@ class KEval:
                 self.bind_target(xv, item, env)
             else:
                 seq = self.ev(inner, env, S, f, guards, loops, depth) if inner is not None else TOP
-                lp = Loop(name, ZERO, self.length_of(seq), ONE, st, "enumerate")
+                n_ = self.length_of(seq)
+                # `for i, v in enumerate(A)` over an array of known extent is `for i in range(len(A)): v = A[i]`
+                lp = Loop(name, ZERO, n_, ONE, st, "range" if isinstance(seq, Ref) and isinstance(n_, Poly) else "enumerate")
                 if isinstance(iv, ast.Name):
                     env[iv.id] = Poly.sym(iv.id)
                 self.bind_target(xv, self.element_of(seq, Poly.sym(name)), env)
+        elif isinstance(it, ast.Call) and isinstance(it.func, ast.Name) and it.func.id == "zip" and "zip" not in env and isinstance(st.target, ast.Tuple) and len(st.target.elts) == len(it.args) >= 2 \
+                and not it.keywords and all(isinstance(self.ev(a_, env, S, f, guards, loops, depth), Ref) for a_ in it.args):
+            # `for a, b in zip(A, B)` over arrays is an index loop over the first array's extent (numpy kernels zip equally long arrays): a = A[k], b = B[k]
+            seqs = [self.ev(a_, env, S, f, guards, loops, depth) for a_ in it.args]
+            name = self.fresh("zip").replace("#", "_")
+            lp = Loop(name, ZERO, self.length_of(seqs[0]), ONE, st, "range" if isinstance(self.length_of(seqs[0]), Poly) else "enumerate")
+            for t_, q_ in zip(st.target.elts, seqs):
+                self.bind_target(t_, self.element_of(q_, Poly.sym(name)), env)
         else:
             seq = self.ev(it, env, S, f, guards, loops, depth)
             name = st.target.id if isinstance(st.target, ast.Name) else "<item>"
